@@ -295,7 +295,10 @@ def run_batch(prop, tier, seed):
                 known_hits[fid] = known_hits.get(fid, 0) + 1
                 continue
             if not out or not out.get("violation"):
+                # seen in a worker, absent when the same case is executed again: the harness, not the library, is at fault
+                # (a run that depends on more than its case); never report it as a violation, never pass silently either
                 unreplayable += 1
+                print(f"HARNESS-NONDETERMINISM: violation of class {vclass} (run {idx}) did not reproduce when its case was executed again: {v.get('detail', '')[:300]}")
                 continue
             path = write_replay(prop, seed, idx, small, out["violation"], out["digest"])
             ok = _validate_replay(prop, path, out["violation"]["class"])
@@ -331,6 +334,9 @@ def run_batch(prop, tier, seed):
     n_err = len(agg["errors"])
     for idx, e in agg["errors"][:3]:
         print(f"HARNESS-ERROR run={idx}: {e}", file=sys.stderr)
+    if unreplayable and exit_code == 0:
+        print(f"HARNESS-ERROR: {unreplayable} observed violations did not replay", flush=True)
+        exit_code = 3
     if n_err > max(2, 0.01 * max(1, agg["n"])) and exit_code == 0:
         print(f"HARNESS-ERROR: {n_err} harness errors in {agg['n']} runs", flush=True)
         exit_code = 3
